@@ -5,7 +5,9 @@
 package c13
 
 import (
+	"bytes"
 	"fmt"
+	"math/big"
 	"os"
 	"path/filepath"
 	"sort"
@@ -71,6 +73,13 @@ func stateDigest(c *appsim.ChainExec, s *appsim.Stack) string {
 	var parts []string
 	for _, a := range c.Accts {
 		parts = append(parts, fmt.Sprintf("%s/%s/%d", appsim.ToUnits(st.GetBalance(a.Addr)), appsim.ToUnits(st.GetTokenBalance(a.Addr, c.Tok)), st.GetNonce(a.Addr)))
+	}
+	// contract storage of the genesis test contract (slots c, c+1, c+2 for c < 30): the flat mode restores these from its
+	// undo log under the contract's prefix, separately from the account records
+	for slot := 0; slot < 40; slot++ {
+		if v := st.GetState(appsim.ContractAddr, common.BigToHash(big.NewInt(int64(slot)))); len(bytes.TrimLeft(v, "\x00")) > 0 {
+			parts = append(parts, fmt.Sprintf("s%d=%x", slot, bytes.TrimLeft(v, "\x00")))
+		}
 	}
 	return strings.Join(parts, ",")
 }
